@@ -1,9 +1,8 @@
 #!/bin/bash
 # Confirm a sub-agent's seeded change in its scratch worktree:
 #   suite passes with it, demo fails with it, demo passes without it.
-# usage: seed_confirm.sh C07 [extra cargo test args for the demo]
-id=$1; shift
-wt=/tmp/wt_$id; sd=/tmp/seed_$id
+# usage: seed_confirm.sh <id> <worktree dir> <seed dir> [extra cargo test args for the demo]
+id=$1; wt=$2; sd=$3; shift 3
 log=$sd/confirm.log
 : > $log
 cd $wt || exit 2
